@@ -393,6 +393,17 @@ class Parser:
         Consume the current token as an rvalue, generating the code to evaluate
         it and to move the result into dest.
         """
+        if code_gen is not None and code_gen is not self._code_gen:
+            # The caller collects this value's code in a generator of its own
+            # (the elements of a "repeat in" list are emitted in reverse
+            # order). Expressions and routine calls emit through the
+            # parser's generator, so that has to be the caller's for now.
+            outer_code_gen = self._code_gen
+            self._code_gen = code_gen
+            try:
+                return self._rvalue(dest)
+            finally:
+                self._code_gen = outer_code_gen
         code_gen = code_gen or self._code_gen
         if self._current_token.is_mark('{'):
             return self.next_token() and self._rvalue_curly(dest, code_gen)
